@@ -25,11 +25,25 @@ def JUnf (C : Codec) (n : Option Node) : Prop :=
 def Fad (C : Codec) (t : ThreadProg) (v : View) : Prop :=
   v.jf = none ∨ JUnf C v.jf ∨ v.ofn = some (.file t.obsBytes [])
 
+/-- Where the complete copy is: the working stream.obs in the tmp tree has on
+    disk exactly the flushed bytes; or it is gone and the final stream.obs has
+    them with nothing pending; or nothing has been flushed yet. -/
+def Kept (v : View) : Prop :=
+  (∃ pn, v.ot = some (.file (flushedOf v.g) pn)) ∨ (v.ot = none ∧ ObsSync v.ofn v.g) ∨ flushedOf v.g = []
+
+theorem Kept.noLoss {v : View} (h : Kept v) : NoLoss v := by
+  rcases h with ⟨pn, h⟩ | ⟨_, d, h1, h2⟩ | h
+  · exact Or.inr ⟨.tmp, _, pn, h, rfl⟩
+  · exact Or.inr ⟨.fin, d, [], h1, h2.symm⟩
+  · exact Or.inl h
+
 structure TInv (C : Codec) (t : ThreadProg) (v : View) : Prop where
   safeT : Safe v .tmp
   safeF : Safe v .fin
   fad : Fad C t v
-  noLoss : NoLoss v
+  kept : Kept v
+
+theorem TInv.noLoss {C : Codec} {t : ThreadProg} {v : View} (h : TInv C t v) : NoLoss v := h.kept.noLoss
 
 /-! ### directory-only calls are foreign to every thread -/
 
@@ -127,9 +141,9 @@ theorem tinv_direct (C : Codec) (t : ThreadProg) (o j g : Option Node)
   · rcases ho with ⟨h, _⟩ | h
     · exact Or.inl h
     · exact Or.inr (Or.inl h)
-  · rcases ho with ⟨_, h⟩ | ⟨d, h1, h2⟩
-    · exact Or.inl h
-    · exact Or.inr ⟨.fin, d, [], h1, h2.symm⟩
+  · rcases ho with ⟨_, h⟩ | h
+    · exact Or.inr (Or.inr h)
+    · exact Or.inr (Or.inl ⟨rfl, h⟩)
 
 /-- `TInv` for a view of the tmp-mode shape before the relocation. -/
 theorem tinv_tmp (C : Codec) (t : ThreadProg) (o j g : Option Node)
@@ -140,8 +154,8 @@ theorem tinv_tmp (C : Codec) (t : ThreadProg) (o j g : Option Node)
     · exact Or.inl h
     · exact Or.inr (Or.inl h)
   · rcases ho with ⟨_, h⟩ | ⟨d, h1, h2⟩
-    · exact Or.inl h
-    · exact Or.inr ⟨.tmp, d, [], h1, h2.symm⟩
+    · exact Or.inr (Or.inr h)
+    · exact Or.inl ⟨[], by rw [h1, h2]⟩
 
 theorem obsSync_F (d : List Nat) : ObsSync (F d) (F d) := ⟨d, rfl, rfl⟩
 
@@ -351,62 +365,6 @@ theorem ops_moveFile (g tid : Nat) (n : FName) (c : List Nat) :
     ops (moveFileCalls g tid n c) = moveFileOps tid n c := by
   simp only [ops, moveFileCalls, moveFileOps, List.map_append, List.map_cons, List.map_nil, List.map_flatMap]
 
-def entryOps (tid : Nat) (content : FName → List Nat) : DirEnt → List FOp
-  | .f n => .readdir (some (.f n)) :: moveFileOps tid n (content n)
-  | e => [.readdir (some e)]
-
-theorem ops_entries (tid : Nat) (content : FName → List Nat) (g : Nat) (order : List DirEnt) :
-    ops (entriesCalls tid content g order) = order.flatMap (entryOps tid content) := by
-  induction order generalizing g with
-  | nil => rfl
-  | cons e es ih =>
-    simp only [entriesCalls, ops, List.map_append, List.flatMap_cons] at ih ⊢
-    rw [ih]
-    cases e <;> simp [entryCalls, entryOps, ← ops_moveFile g, ops]
-
-theorem foreign_dots (τ tid : Nat) (content : FName → List Nat) (d : List DirEnt) (h : streamEntries d = []) :
-    ∀ op ∈ d.flatMap (entryOps tid content), Foreign τ op := by
-  intro op hop
-  simp only [List.mem_flatMap] at hop
-  obtain ⟨e, he, hop⟩ := hop
-  cases e with
-  | f n =>
-    exfalso
-    have : n ∈ streamEntries d := by
-      simp only [streamEntries, List.mem_filterMap]
-      exact ⟨.f n, he, rfl⟩
-    rw [h] at this; cases this
-  | dot => simp [entryOps] at hop; subst hop; intro q _; simp [touch]
-  | dotdot => simp [entryOps] at hop; subst hop; intro q _; simp [touch]
-
-theorem split_two {order : List DirEnt} {a b : FName} (h : streamEntries order = [a, b]) :
-    ∃ d0 d1 d2, order = d0 ++ .f a :: (d1 ++ .f b :: d2) ∧
-      streamEntries d0 = [] ∧ streamEntries d1 = [] ∧ streamEntries d2 = [] := by
-  have one : ∀ (l : List DirEnt) (x : FName) (xs : List FName), streamEntries l = x :: xs →
-      ∃ d r, l = d ++ .f x :: r ∧ streamEntries d = [] ∧ streamEntries r = xs := by
-    intro l
-    induction l with
-    | nil => intro x xs h; simp [streamEntries] at h
-    | cons e es ih =>
-      intro x xs h
-      cases e with
-      | f n =>
-        simp only [streamEntries, List.filterMap_cons] at h
-        injection h with h1 h2
-        subst h1
-        exact ⟨[], es, rfl, rfl, h2⟩
-      | dot =>
-        simp only [streamEntries, List.filterMap_cons] at h
-        obtain ⟨d, r, rfl, hd, hr⟩ := ih x xs h
-        exact ⟨.dot :: d, r, rfl, by simpa [streamEntries] using hd, hr⟩
-      | dotdot =>
-        simp only [streamEntries, List.filterMap_cons] at h
-        obtain ⟨d, r, rfl, hd, hr⟩ := ih x xs h
-        exact ⟨.dotdot :: d, r, rfl, by simpa [streamEntries] using hd, hr⟩
-  obtain ⟨d0, r, rfl, h0, hr⟩ := one order a [b] h
-  obtain ⟨d1, d2, rfl, h1, h2⟩ := one r b [] hr
-  exact ⟨d0, d1, d2, rfl, h0, h1, h2⟩
-
 /-- The fread/fwrite loop copying into the final stream.obs. -/
 theorem loop_obs (τ : Nat) (I : View → Prop) (a b d e : Option Node) (hI : ∀ x, I ⟨a, b, x, d, e⟩)
     (bs : List (List Nat)) (pend : List Nat) :
@@ -488,74 +446,20 @@ theorem foreign_single {τ : Nat} {op : FOp} (h : touch op = []) : ∀ x ∈ [op
   subst hx
   intro q _; rw [h]; simp
 
-theorem ops_moveDir (order : List DirEnt) (tid : Nat) (content : FName → List Nat) :
-    ops (moveDirCalls order tid content) =
-      [.opendir (.thread .tmp tid)] ++ order.flatMap (entryOps tid content) ++ [.readdir none, .closedir] := by
-  simp only [moveDirCalls, ops, List.map_append, List.map_cons, List.map_nil]
-  have := ops_entries tid content 1 order
-  simp only [ops] at this
-  rw [this]
-
-/-- `move_thdir_to_final` + `try_clean_dir` when readdir returns stream.obs
-    before stream.json. -/
-theorem reloc_obs_json (τ : Nat) (I : View → Prop) (g js : List Nat) (order : List DirEnt)
-    (ho : streamEntries order = [.obs, .json])
+/-- `move_thdir_to_final` (stream.obs, then stream.json) + `try_clean_dir`. -/
+theorem reloc_fixed (τ : Nat) (I : View → Prop) (g js : List Nat)
     (h1 : ∀ y, I ⟨F g, F js, y, none, F g⟩) (h2 : ∀ y, I ⟨none, F js, F g, y, F g⟩)
     (h3 : I ⟨none, none, F g, F js, F g⟩) :
     Triple τ (· = ⟨F g, F js, none, none, F g⟩)
-      (ops (moveDirCalls order τ (fun n => match n with | .obs => g | .json => js))
-        ++ [.rmdir (.thread .tmp τ)])
+      (moveFileOps τ .obs g ++ (moveFileOps τ .json js ++ [.rmdir (.thread .tmp τ)]))
       I (· = ⟨none, none, F g, F js, F g⟩) := by
-  obtain ⟨d0, d1, d2, rfl, e0, e1, e2⟩ := split_two ho
-  rw [ops_moveDir]
-  simp only [List.flatMap_append, List.flatMap_cons, entryOps, List.append_assoc]
-  refine Triple.seq (Triple.idle _ (foreign_single rfl) (h1 _)) ?_
-  refine Triple.seq (Triple.idle _ (foreign_dots τ τ _ d0 e0) (h1 _)) ?_
-  rw [List.cons_append]
-  refine Triple.seq (a := [_]) (Triple.idle _ (foreign_single rfl) (h1 _)) ?_
   refine Triple.seq (move_obs τ I g (F js) none none (F g) h1 (h2 _)) ?_
-  refine Triple.seq (Triple.idle _ (foreign_dots τ τ _ d1 e1) (h2 _)) ?_
-  rw [List.cons_append]
-  refine Triple.seq (a := [_]) (Triple.idle _ (foreign_single rfl) (h2 _)) ?_
   refine Triple.seq (move_json τ I js none (F g) none (F g) h2 h3) ?_
-  refine Triple.seq (Triple.idle _ (foreign_dots τ τ _ d2 e2) h3) ?_
   refine Triple.idle _ ?_ h3
   intro op hop
-  simp only [List.cons_append, List.nil_append, List.mem_cons, List.not_mem_nil, or_false] at hop
-  rcases hop with rfl | rfl | rfl
-  · intro q _; simp [touch]
-  · intro q _; simp [touch]
-  · exact foreign_of_dir (by simp [touch, Path.isLeaf])
-
-/-- The same when readdir returns stream.json first. -/
-theorem reloc_json_obs (τ : Nat) (I : View → Prop) (g js : List Nat) (order : List DirEnt)
-    (ho : streamEntries order = [.json, .obs])
-    (h1 : ∀ y, I ⟨F g, F js, none, y, F g⟩) (h2 : ∀ x, I ⟨F g, none, x, F js, F g⟩)
-    (h3 : I ⟨none, none, F g, F js, F g⟩) :
-    Triple τ (· = ⟨F g, F js, none, none, F g⟩)
-      (ops (moveDirCalls order τ (fun n => match n with | .obs => g | .json => js))
-        ++ [.rmdir (.thread .tmp τ)])
-      I (· = ⟨none, none, F g, F js, F g⟩) := by
-  obtain ⟨d0, d1, d2, rfl, e0, e1, e2⟩ := split_two ho
-  rw [ops_moveDir]
-  simp only [List.flatMap_append, List.flatMap_cons, entryOps, List.append_assoc]
-  refine Triple.seq (Triple.idle _ (foreign_single rfl) (h1 _)) ?_
-  refine Triple.seq (Triple.idle _ (foreign_dots τ τ _ d0 e0) (h1 _)) ?_
-  rw [List.cons_append]
-  refine Triple.seq (a := [_]) (Triple.idle _ (foreign_single rfl) (h1 _)) ?_
-  refine Triple.seq (move_json τ I js (F g) none none (F g) h1 (h2 _)) ?_
-  refine Triple.seq (Triple.idle _ (foreign_dots τ τ _ d1 e1) (h2 _)) ?_
-  rw [List.cons_append]
-  refine Triple.seq (a := [_]) (Triple.idle _ (foreign_single rfl) (h2 _)) ?_
-  refine Triple.seq (move_obs τ I g none none (F js) (F g) h2 h3) ?_
-  refine Triple.seq (Triple.idle _ (foreign_dots τ τ _ d2 e2) h3) ?_
-  refine Triple.idle _ ?_ h3
-  intro op hop
-  simp only [List.cons_append, List.nil_append, List.mem_cons, List.not_mem_nil, or_false] at hop
-  rcases hop with rfl | rfl | rfl
-  · intro q _; simp [touch]
-  · intro q _; simp [touch]
-  · exact foreign_of_dir (by simp [touch, Path.isLeaf])
+  simp only [List.mem_cons, List.not_mem_nil, or_false] at hop
+  subst hop
+  exact foreign_of_dir (by simp [touch, Path.isLeaf])
 
 end Ovni.Rt.Fs
 
@@ -596,77 +500,189 @@ theorem thread_direct (C : Codec) (p : Prog) (t : ThreadProg) (hp : p.tmpMode = 
     simp only [if_true, threadFreeCalls, relocCalls, hp, hwr, Bool.false_eq_true, if_false, List.append_nil, true_imp_iff]
     exact free_direct C t j' hj' _ _ rfl
 
-/-- TMPDIR mode, stream.obs relocated first: every prefix satisfies `TInv`. -/
-theorem thread_tmp_obs_first (C : Codec) (p : Prog) (t : ThreadProg) (hp : p.tmpMode = true)
-    (ho : streamEntries p.order = [.obs, .json]) :
-    Triple t.tid (· = View.empty) (ops (threadCalls C.ser p t)) (TInv C t)
-      (fun v => t.free = true → v = doneView C t) := by
+/-- TMPDIR mode, `ovni_thread_init` … `close(streamfd)` of a thread that frees. -/
+theorem thread_tmp_pre (C : Codec) (p : Prog) (t : ThreadProg) (hp : p.tmpMode = true) :
+    Triple t.tid (· = View.empty)
+      (ops (threadInitCalls C.ser p t) ++ (ops (t.steps.flatMap (stepCalls C.ser p t.tid)) ++
+        ops (storeCalls .tmp t.tid (C.ser ⟨true, t.metaF⟩) ++ [⟨.closeStream, 0, .close .tmp t.tid t.lastLen⟩])))
+      (TInv C t) (· = ⟨F t.obsBytes, F (C.ser ⟨true, t.metaF⟩), none, none, F t.obsBytes⟩) := by
   have hwr : p.wr = .tmp := by simp [Prog.wr, hp]
-  unfold threadCalls threadInitCalls
-  simp only [hp, hwr, if_true, ops, List.map_append, List.append_assoc]
+  unfold threadInitCalls
+  simp only [hp, hwr, if_true, ops_append, List.append_assoc]
   refine Triple.seq (Triple.idle _ (foreign_mkdirThread _ _ _ _) (tinv_empty C t)) ?_
   refine Triple.seq (Triple.idle _ (foreign_mkdirThread _ _ _ _) (tinv_empty C t)) ?_
-  rw [← List.append_assoc, ← List.map_append]
+  rw [← List.append_assoc, ← ops_append]
   refine Triple.seq (init_tmp C t _) ?_
   refine Triple.seq (steps_tmp C t p hp t.steps t.hdr _) ?_
   intro v ⟨j', hv⟩
   subst hv
-  cases hf : t.free with
-  | false =>
-    simp only [Bool.false_eq_true, if_false, List.map_nil, valways_nil, vrun_nil, false_imp_iff, and_true]
-    exact tinv_tmp C t _ _ _ (Or.inr (obsSync_F _))
-  | true =>
-    have e : t.hdr ++ stepsBytes t.steps = t.obsBytes := rfl
-    rw [e]
-    have h1 := free_tmp C t j' (C.ser ⟨true, t.metaF⟩) t.obsBytes t.lastLen
-    have h2 := reloc_obs_json t.tid (TInv C t) t.obsBytes (C.ser ⟨true, t.metaF⟩) p.order ho
-      (fun y => ⟨Or.inr (Or.inl (obsSync_F _)), Or.inr (Or.inr rfl), Or.inl rfl, Or.inr ⟨.tmp, _, [], rfl, rfl⟩⟩)
-      (fun y => ⟨Or.inl rfl, Or.inr (Or.inl (obsSync_F _)), Or.inr (Or.inr rfl), Or.inr ⟨.fin, _, [], rfl, rfl⟩⟩)
-      ⟨Or.inl rfl, Or.inr (Or.inl (obsSync_F _)), Or.inr (Or.inr rfl), Or.inr ⟨.fin, _, [], rfl, rfl⟩⟩
-    have h := (Triple.seq h1 h2) _ rfl
-    simp only [if_true, threadFreeCalls, relocCalls, hp, hwr, true_imp_iff, doneView]
-    simp only [ops, List.map_append, List.append_assoc, List.map_cons, List.map_nil] at h ⊢
-    exact h
+  rw [← ops_append]
+  exact free_tmp C t j' (C.ser ⟨true, t.metaF⟩) t.obsBytes t.lastLen _ rfl
 
-end Ovni.Rt.Fs
-
-namespace Ovni.Rt.Fs
-
-theorem TInv.toNoLoss {C : Codec} {t : ThreadProg} {v : View} (h : TInv C t v) : NoLoss v := h.noLoss
-
-/-- TMPDIR mode, any of the two readdir orders: a complete copy of the flushed
-    bytes exists after every prefix, and the thread ends in `doneView`. -/
-theorem thread_tmp_noloss (C : Codec) (p : Prog) (t : ThreadProg) (hp : p.tmpMode = true)
-    (ho : streamEntries p.order = [.obs, .json] ∨ streamEntries p.order = [.json, .obs]) :
-    Triple t.tid (· = View.empty) (ops (threadCalls C.ser p t)) NoLoss
-      (fun v => t.free = true → v = doneView C t) := by
-  rcases ho with ho | ho
-  · exact Triple.mono (fun v h => h.noLoss) (thread_tmp_obs_first C p t hp ho)
+theorem ops_threadCalls_tmp_free (ser : Meta → List Nat) (p : Prog) (t : ThreadProg) (hp : p.tmpMode = true)
+    (hf : t.free = true) :
+    ops (threadCalls ser p t) =
+      (ops (threadInitCalls ser p t) ++ (ops (t.steps.flatMap (stepCalls ser p t.tid)) ++
+        ops (storeCalls .tmp t.tid (ser ⟨true, t.metaF⟩) ++ [⟨.closeStream, 0, .close .tmp t.tid t.lastLen⟩])))
+      ++ (moveFileOps t.tid .obs t.obsBytes ++
+          (moveFileOps t.tid .json (ser ⟨true, t.metaF⟩) ++ [.rmdir (.thread .tmp t.tid)])) := by
   have hwr : p.wr = .tmp := by simp [Prog.wr, hp]
-  unfold threadCalls threadInitCalls
-  simp only [hp, hwr, if_true, ops, List.map_append, List.append_assoc]
-  refine Triple.seq (Triple.idle _ (foreign_mkdirThread _ _ _ _) (tinv_empty C t).noLoss) ?_
-  refine Triple.seq (Triple.idle _ (foreign_mkdirThread _ _ _ _) (tinv_empty C t).noLoss) ?_
-  rw [← List.append_assoc, ← List.map_append]
-  refine Triple.seq (Triple.mono (fun v h => h.noLoss) (init_tmp C t _)) ?_
-  refine Triple.seq (Triple.mono (fun v h => h.noLoss) (steps_tmp C t p hp t.steps t.hdr _)) ?_
-  intro v ⟨j', hv⟩
-  subst hv
+  simp only [threadCalls, hf, if_true, threadFreeCalls, relocCalls, hp, hwr, ops_append, ops_moveFile, ops_cons, ops_nil,
+    List.append_assoc]
+
+/-- TMPDIR mode: every prefix of the thread's calls satisfies `TInv`. -/
+theorem thread_tmp (C : Codec) (p : Prog) (t : ThreadProg) (hp : p.tmpMode = true) :
+    Triple t.tid (· = View.empty) (ops (threadCalls C.ser p t)) (TInv C t)
+      (fun v => t.free = true → v = doneView C t) := by
+  have hwr : p.wr = .tmp := by simp [Prog.wr, hp]
   cases hf : t.free with
   | false =>
-    simp only [Bool.false_eq_true, if_false, List.map_nil, valways_nil, vrun_nil, false_imp_iff, and_true]
-    exact (tinv_tmp C t _ _ _ (Or.inr (obsSync_F _))).noLoss
+    unfold threadCalls threadInitCalls
+    simp only [hp, hwr, hf, if_true, Bool.false_eq_true, if_false, List.append_nil, ops_append, List.append_assoc]
+    refine Triple.seq (Triple.idle _ (foreign_mkdirThread _ _ _ _) (tinv_empty C t)) ?_
+    refine Triple.seq (Triple.idle _ (foreign_mkdirThread _ _ _ _) (tinv_empty C t)) ?_
+    rw [← List.append_assoc, ← ops_append]
+    refine Triple.seq (init_tmp C t _) ?_
+    refine Triple.conseq (steps_tmp C t p hp t.steps t.hdr _) (fun _ h => h) (fun _ _ h => by cases h)
   | true =>
-    have e : t.hdr ++ stepsBytes t.steps = t.obsBytes := rfl
-    rw [e]
-    have h1 := Triple.mono (fun v h => h.noLoss) (free_tmp C t j' (C.ser ⟨true, t.metaF⟩) t.obsBytes t.lastLen)
-    have h2 := reloc_json_obs t.tid NoLoss t.obsBytes (C.ser ⟨true, t.metaF⟩) p.order ho
-      (fun y => Or.inr ⟨.tmp, _, [], rfl, rfl⟩)
-      (fun y => Or.inr ⟨.tmp, _, [], rfl, rfl⟩)
-      (Or.inr ⟨.fin, _, [], rfl, rfl⟩)
-    have h := (Triple.seq h1 h2) _ rfl
-    simp only [if_true, threadFreeCalls, relocCalls, hp, hwr, true_imp_iff, doneView]
-    simp only [ops, List.map_append, List.append_assoc, List.map_cons, List.map_nil] at h ⊢
-    exact h
+    rw [ops_threadCalls_tmp_free C.ser p t hp hf]
+    have h2 := reloc_fixed t.tid (TInv C t) t.obsBytes (C.ser ⟨true, t.metaF⟩)
+      (fun y => ⟨Or.inr (Or.inl (obsSync_F _)), Or.inr (Or.inr rfl), Or.inl rfl, Or.inl ⟨[], rfl⟩⟩)
+      (fun y => ⟨Or.inl rfl, Or.inr (Or.inl (obsSync_F _)), Or.inr (Or.inr rfl), Or.inr (Or.inl ⟨rfl, obsSync_F _⟩)⟩)
+      ⟨Or.inl rfl, Or.inr (Or.inl (obsSync_F _)), Or.inr (Or.inr rfl), Or.inr (Or.inl ⟨rfl, obsSync_F _⟩)⟩
+    exact Triple.conseq (Triple.seq (thread_tmp_pre C p t hp) h2) (fun _ h => h) (fun _ h _ => h)
+
+/-! ### `fwrite` into the final stream.obs only happens while the source is intact -/
+
+/-- The working stream.obs in the tmp tree has on disk exactly the flushed bytes. -/
+def KeptTmp (v : View) : Prop := ∃ pn, v.ot = some (.file (flushedOf v.g) pn)
+
+/-- When the call is an `fwrite` into the final stream.obs of τ, the state is `KeptTmp`. -/
+def FwObs (τ : Nat) (v : View) (op : FOp) : Prop := ∀ d, op = .fwrite (.file .fin τ .obs) d → KeptTmp v
+
+def isFwrite : FOp → Bool
+  | .fwrite _ _ => true
+  | _ => false
+
+theorem fwObs_of_not_fwrite {τ : Nat} {op : FOp} (h : isFwrite op = false) (v : View) : FwObs τ v op := by
+  intro d e; subst e; cases h
+
+theorem nofw_mkpath (comps : List (Path × Bool)) : ∀ op ∈ ops (mkpathCalls comps), isFwrite op = false := by
+  intro op hop
+  simp only [ops, mkpathCalls, List.mem_map, List.mem_flatMap] at hop
+  obtain ⟨c, ⟨x, _, hc⟩, rfl⟩ := hop
+  split at hc <;> simp only [List.mem_cons, List.not_mem_nil, or_false] at hc
+  · rcases hc with rfl | rfl <;> rfl
+  · subst hc; rfl
+
+theorem nofw_store (r : Root) (τ : Nat) (js : List Nat) : ∀ op ∈ ops (storeCalls r τ js), isFwrite op = false := by
+  intro op hop
+  simp only [ops, storeCalls, List.map_cons, List.map_nil, List.mem_cons, List.not_mem_nil, or_false] at hop
+  rcases hop with rfl | rfl | rfl <;> rfl
+
+/-- No `fwrite` before the relocation. -/
+theorem nofw_pre (ser : Meta → List Nat) (p : Prog) (t : ThreadProg) (js : List Nat) (last : Nat) :
+    ∀ op ∈ ops (threadInitCalls ser p t) ++ (ops (t.steps.flatMap (stepCalls ser p t.tid)) ++
+        ops (storeCalls p.wr t.tid js ++ [⟨.closeStream, 0, .close p.wr t.tid last⟩])), isFwrite op = false := by
+  intro op hop
+  simp only [threadInitCalls, ops_append, List.mem_append] at hop
+  rcases hop with (((h | h) | h) | h) | h | h | h
+  · exact nofw_mkpath _ op h
+  · split at h
+    · exact nofw_mkpath _ op h
+    · cases h
+  · simp only [ops, List.map_cons, List.map_nil, List.mem_cons, List.not_mem_nil, or_false] at h
+    rcases h with rfl | rfl <;> rfl
+  · exact nofw_store _ _ _ op h
+  · simp only [ops, List.mem_map, List.mem_flatMap] at h
+    obtain ⟨c, ⟨st, _, hc⟩, rfl⟩ := h
+    cases st with
+    | io chunks =>
+      simp only [stepCalls, List.mem_map] at hc
+      obtain ⟨d, _, rfl⟩ := hc
+      rfl
+    | attrFlush b => exact nofw_store _ _ _ _ (by simp only [ops, List.mem_map]; exact ⟨c, hc, rfl⟩)
+  · exact nofw_store _ _ _ op h
+  · simp only [ops, List.map_cons, List.map_nil, List.mem_cons, List.not_mem_nil, or_false] at h
+    subst h; rfl
+
+/-- During the copy of stream.obs the source and the ghost log stay put. -/
+theorem move_obs_fw (τ : Nat) (c : List Nat) (jt x jf : Option Node) :
+    VNext τ (FwObs τ) ⟨F c, jt, x, jf, F c⟩ (moveFileOps τ .obs c) := by
+  have hI : ∀ y, KeptTmp ⟨F c, jt, y, jf, F c⟩ := fun _ => ⟨[], rfl⟩
+  unfold moveFileOps
+  obtain ⟨l1, _⟩ := loop_obs τ KeptTmp (F c) jt jf (F c) hI (blocks c.length c) []
+  rw [List.append_assoc, vnext_append, vnext_append]
+  refine ⟨?_, ?_, ?_⟩
+  · exact vnext_trivial (fun op hop v => fwObs_of_not_fwrite (by
+      simp only [List.mem_cons, List.not_mem_nil, or_false] at hop
+      rcases hop with rfl | rfl <;> rfl) v)
+  · simp only [vrun_cons, vrun_nil]
+    simp only [vstep, effect, Path.file.injEq, reduceCtorEq, and_false, false_and, if_false, and_true, true_and, if_true]
+    exact vnext_of_valways (fun v op h d _ => h) l1
+  · exact vnext_trivial (fun op hop v => fwObs_of_not_fwrite (by
+      simp only [List.mem_cons, List.not_mem_nil, or_false] at hop
+      rcases hop with rfl | rfl | rfl | rfl <;> rfl) v)
+
+theorem move_json_fw (τ : Nat) (c : List Nat) : ∀ op ∈ moveFileOps τ .json c, ∀ v, FwObs τ v op := by
+  intro op hop v d e
+  subst e
+  simp [moveFileOps] at hop
+
+/-- Every `fwrite` into the final stream.obs of a thread is issued while the
+    working stream.obs still holds everything flushed. -/
+theorem thread_fwrite_pre (C : Codec) (p : Prog) (t : ThreadProg) :
+    VNext t.tid (FwObs t.tid) View.empty (ops (threadCalls C.ser p t)) := by
+  cases hp : p.tmpMode with
+  | false =>
+    have hwr : p.wr = .fin := by simp [Prog.wr, hp]
+    apply vnext_trivial
+    intro op hop v
+    apply fwObs_of_not_fwrite
+    cases hf : t.free with
+    | false =>
+      have := nofw_pre C.ser p t [] 0 op
+      apply this
+      simp only [threadCalls, hf, Bool.false_eq_true, if_false, List.append_nil, ops_append, List.mem_append] at hop
+      simp only [List.mem_append]
+      rcases hop with h | h
+      · exact Or.inl h
+      · exact Or.inr (Or.inl h)
+    | true =>
+      apply nofw_pre C.ser p t (C.ser ⟨true, t.metaF⟩) t.lastLen op
+      simp only [threadCalls, hf, if_true, threadFreeCalls, relocCalls, hp, Bool.false_eq_true, if_false,
+        List.append_nil, ops_append, List.mem_append] at hop
+      simp only [ops_append, List.mem_append]
+      rcases hop with (h | h) | h | h
+      · exact Or.inl h
+      · exact Or.inr (Or.inl h)
+      · exact Or.inr (Or.inr (Or.inl h))
+      · exact Or.inr (Or.inr (Or.inr h))
+  | true =>
+    have hwr : p.wr = .tmp := by simp [Prog.wr, hp]
+    cases hf : t.free with
+    | false =>
+      apply vnext_trivial
+      intro op hop v
+      apply fwObs_of_not_fwrite
+      apply nofw_pre C.ser p t [] 0 op
+      simp only [threadCalls, hf, Bool.false_eq_true, if_false, List.append_nil, ops_append, List.mem_append] at hop
+      simp only [List.mem_append]
+      rcases hop with h | h
+      · exact Or.inl h
+      · exact Or.inr (Or.inl h)
+    | true =>
+      rw [ops_threadCalls_tmp_free C.ser p t hp hf, vnext_append]
+      refine ⟨vnext_trivial (fun op hop v => fwObs_of_not_fwrite (by
+        have := nofw_pre C.ser p t (C.ser ⟨true, t.metaF⟩) t.lastLen op
+        rw [hwr] at this
+        exact this hop) v), ?_⟩
+      rw [(thread_tmp_pre C p t hp _ rfl).2, vnext_append]
+      exact ⟨move_obs_fw _ _ _ _ _, vnext_trivial (fun op hop v => by
+        rcases List.mem_append.mp hop with h | h
+        · exact move_json_fw _ _ op h v
+        · simp only [List.mem_cons, List.not_mem_nil, or_false] at h
+          subst h
+          exact fwObs_of_not_fwrite rfl v)⟩
 
 end Ovni.Rt.Fs
